@@ -11,6 +11,7 @@ import StyluaModel.Generated.ExitOps
 import StyluaModel.Model.Run
 import Driver.DiffProto
 import Driver.UnifiedProto
+import Driver.SemiProto
 import Driver.ConfigProto
 import Driver.SelectProto
 import Driver.TypeProto
@@ -98,6 +99,7 @@ def handle (line : String) : String :=
       s!"{r.exit} w:{",".intercalate (r.written.map toString)} d:{",".intercalate (r.diffs.map toString)}"
   | ["diffjson", v, ops, o, n] => Driver.DiffProto.handle v ops o n
   | ["diffuni", ops, o, n, tx] => Driver.UnifiedProto.handle ops o n tx
+  | ["semi", eol, req, wr, t, sl, st] => Driver.SemiProto.handle eol req wr t sl st
   | ["config", req] => Driver.ConfigProto.handle req
   | ["stdin", check, respect, ignored, parses, same] =>
       -- abstract run: the formatter is a parameter (parses? formatted = input?)
